@@ -629,6 +629,11 @@ func (ci *crdIpam) ByKeyAndIPRanges(key string, ipranges [][]nets.IPRange) ([]*F
 				ipinfos = append(ipinfos, ci.toFloatingIPInfo(fip))
 			}
 		}
+		// return a stable order instead of the map iteration order: callers which need a single ip of a key holding
+		// several take the first one, filter and bind must pick the same one
+		sort.Slice(ipinfos, func(i, j int) bool {
+			return nets.IPToInt(ipinfos[i].IP) < nets.IPToInt(ipinfos[j].IP)
+		})
 	}
 	return ipinfos, nil
 }
